@@ -34,7 +34,9 @@ namespace xsv
         const U qn = model::bits(L::quiet_NaN());
         s.insert((uint64_t)qn);
         s.insert((uint64_t)(qn | model::fpt<T>::sign | 0x1234));
-        s.insert((uint64_t)((qn & ~((U)1 << (model::fpt<T>::mant - 1))) | 1)); // signalling
+        s.insert((uint64_t)((qn & ~((U)1 << (model::fpt<T>::mant - 1))) | 1)); // signalling, payload in the lowest bit only
+        s.insert((uint64_t)((qn & ~((U)1 << (model::fpt<T>::mant - 1))) | ((U)1 << (model::fpt<T>::mant - 2)))); // signalling, payload in the top bits only
+        s.insert((uint64_t)(U) ~(U)0); // all ones
         return std::vector<uint64_t>(s.begin(), s.end());
     }
     inline std::vector<uint64_t> fp_lattice(TypeId t) { return t == F32 ? fp_lattice_t<float>() : fp_lattice_t<double>(); }
